@@ -1187,7 +1187,11 @@ def gen_realistic_read_case(rng):
     return kind, read_case(full, [1, k], [k], rmac, now)
 
 
-RKINDS = ["origin", "origin-dict", "origin-dict-bytes", "origin-callable", "genuine", "genuine", "case", "compressed", "flip", "flip", "flip", "nokeyring", "kr-true", "kr-false", "dict", "dict-bytes",
+# every keyring form x good / forged MAC x single message / later envelope of a multi-message exchange
+KEYRING_FORMS = ["empty", "miss", "hit", "hit-bytes", "key", "call-hit", "call-miss", "none", "false", "true"]
+FORM_KINDS = ["form:%s:%s:%s" % (f, m, p) for f in KEYRING_FORMS for m in ("good", "forged") for p in ("single", "later")]
+
+RKINDS = FORM_KINDS + ["origin", "origin-dict", "origin-dict-bytes", "origin-callable", "genuine", "genuine", "case", "compressed", "flip", "flip", "flip", "nokeyring", "kr-true", "kr-false", "dict", "dict-bytes",
           "dict-miss", "secret", "time", "rmac", "error", "notlast", "notlast-sec", "class", "two", "ttl", "trailing", "trunc",
           "unsigned", "multi", "chain", "chain-unsigned"]
 
@@ -1202,7 +1206,7 @@ def gen_read_case(rng, kind=None):
         if kw["error"] == 18:
             kw["other"] = b"\0\0\0\0\0\1"
     running, ctx, multi = None, None, 0
-    if kind in ("chain", "chain-unsigned"):
+    if kind in ("chain", "chain-unsigned") or (kind.startswith("form:") and kind.endswith(":later")):
         prior = gen_mac(rng)
         running = u16(len(prior)) + prior + (build_wire(rng) if rng.random() < 0.4 else b"")
         ctx, multi = [k, running], 1
@@ -1229,6 +1233,20 @@ def gen_read_case(rng, kind=None):
         i = rng.randrange(len(b) * 8) if rng.random() < 0.5 else rng.randrange(start * 8, len(b) * 8)
         b[i // 8] ^= 1 << (i % 8)
         full = bytes(b)
+    elif kind.startswith("form:"):
+        _, form, macq, _pos = kind.split(":")
+        k2 = gen_key(rng, 0)
+        while name_eq(k2[0], k[0]):
+            k2 = gen_key(rng, 0)
+        kr = {"empty": [2, []], "miss": [2, [[k2[0], k2]]], "hit": [2, [[k2[0], k2], [case_variant(rng, k[0]), k]]],
+              "hit-bytes": [2, [[k[0], k[1]]]], "key": [1, k], "call-hit": [3, [[k[0], k]]], "call-miss": [3, [[k2[0], k2]]],
+              "none": None, "false": 0, "true": 1}[form]
+        keys = [k, k2]
+        if macq == "forged" and mac:
+            p_ = full.rfind(mac)
+            b = bytearray(full)
+            b[p_ + rng.randrange(len(mac))] ^= 1 << rng.randrange(8)
+            full = bytes(b)
     elif kind.startswith("origin"):
         origin = gen_origin(rng, k[0]) or list(k[0][1:] if len(k[0]) > 1 else k[0])
         if kind == "origin-dict":
